@@ -199,7 +199,14 @@ def plan(prop, tier):
         return [TableJob("c12_u2", core + ["Find"], ["Find"], targets=both)] + bnd("c12", ["Find"]) + deep("c12", ["Find"], 2, 5)[:1]
     if prop == "C13":
         w = ["GetMut", "LpmMut", "IterMut", "ValuesMut", "ChildrenMut", "ViewValueMut", "ViewIterMut"]
-        return [TableJob("c13_u2", core + w, w, vals="{1,2}", maxcount=3 if q else 4, targets=targets(types))]
+        IRx, IRKx = ["Insert", "Remove"], ["Insert", "Remove", "RemoveKeepTree"]
+        ptg = [(t, "map-map", "plain") for t in (["u32", "Ipv6Net"] if q else ["u8", "u32", "u128", "Ipv4Net", "Ipv6Net", "Ipv4Cidr"])] + \
+              [("u32", c, "plain") for c in ("map-str", "map-set", "set-map")]
+        return [TableJob("c13_u2", core + w, w, vals="{1,2}", maxcount=3 if q else 4, targets=targets(types)),
+                # writes through the _mut set operations land exactly on the yielded entries of both operands
+                PairJob("c13_pw_cc", IRx, IRx, ["PairWrite"], 2, 2, targets=ptg),
+                PairJob("c13_pw_lc", IRKx, IRx, ["PairWrite"], 2, 1 if q else 2, nodes_a=4 if q else 5, targets=ptg),
+                PairJob("c13_pw_cl", IRx, IRKx, ["PairWrite"], 1 if q else 2, 2, nodes_b=4 if q else 5, targets=ptg)]
     if prop in ("C05", "C06", "C07", "C08", "C19"):
         IR, IRK = ["Insert", "Remove"], ["Insert", "Remove", "RemoveKeepTree"]
         ops = {"C05": ["Union", "UnionMut"], "C06": ["Inter", "InterMut"], "C07": ["Diff", "DiffMut", "CovDiff", "CovDiffMut"],
@@ -225,7 +232,8 @@ def plan(prop, tier):
                                     + [("u32", "set-set", "plain")], vals_a="{1}", vals_b="{1}"),
                     TableJob("c19_single", MUT + ["CloneCheck", "Collect", "Serde"], ["CloneCheck", "Collect", "Serde"],
                              targets=both)]
-        return [PairJob(prop.lower() + "_cc", IR, IR, ops, 3, 3, targets=pt),
+        split = [TableJob(prop.lower() + "_split", core + ["SplitOp"], ["SplitOp"], targets=targets(types))] if prop in ("C05", "C06", "C07") else []
+        return split + [PairJob(prop.lower() + "_cc", IR, IR, ops, 3, 3, targets=pt),
                 PairJob(prop.lower() + "_lc", IRK, IR, ops, n, 2, nodes_a=4 if q else 6, targets=pt),
                 PairJob(prop.lower() + "_cl", IR, IRK, ops, 2, n, nodes_b=4 if q else 6, targets=pt)]
     if prop == "C18":
